@@ -876,6 +876,7 @@ static void sc_gen(Rng &rng, Plan &plan, bool thorough)
 	if (rng.chance(500)) plan.setp("mf_norm_after", rng.range(1, n + 2));
 	// MicroLZMA: output size limit
 	plan.setp("out_limit", (int64_t)(rng.chance(300) ? 6 + rng.below(64) : 6 + rng.size_skewed(200000)));
+	plan.setp("out_pos0", rng.chance(500) ? 0 : (int64_t)rng.below(9));
 }
 
 static void sc_exec(const Plan &plan, Verdict &v)
@@ -930,14 +931,20 @@ static void sc_exec(const Plan &plan, Verdict &v)
 	}
 	size_t bound;
 	Bytes out;
-	size_t op = 0;
+	// the caller may append to a buffer that already holds something: *out_pos starts at any offset
+	size_t op0 = (size_t)plan.p("out_pos0", 0), op = op0;
 	lzma_ret r;
 	lzma_block blk; memset(&blk, 0, sizeof blk);
 	switch (api) {
-	case 0: bound = lzma_stream_buffer_bound(input.size()); out.resize(bound); r = lzma_stream_buffer_encode(ch.f, check, &al.a, input.data(), input.size(), out.data(), &op, out.size()); break;
-	case 1: bound = lzma_stream_buffer_bound(input.size()); out.resize(bound); r = lzma_easy_buffer_encode(preset, check, &al.a, input.data(), input.size(), out.data(), &op, out.size()); break;
-	case 2: bound = lzma_block_buffer_bound(input.size()); out.resize(bound); blk.check = check; blk.filters = ch.f; r = lzma_block_buffer_encode(&blk, &al.a, input.data(), input.size(), out.data(), &op, out.size()); break;
-	default: bound = lzma_stream_buffer_bound(input.size()); out.resize(bound); r = lzma_raw_buffer_encode(ch.f, &al.a, input.data(), input.size(), out.data(), &op, out.size()); break;
+	case 0: bound = lzma_stream_buffer_bound(input.size()); out.resize(op0 + bound, 0xEE); r = lzma_stream_buffer_encode(ch.f, check, &al.a, input.data(), input.size(), out.data(), &op, out.size()); break;
+	case 1: bound = lzma_stream_buffer_bound(input.size()); out.resize(op0 + bound, 0xEE); r = lzma_easy_buffer_encode(preset, check, &al.a, input.data(), input.size(), out.data(), &op, out.size()); break;
+	case 2: bound = lzma_block_buffer_bound(input.size()); out.resize(op0 + bound, 0xEE); blk.check = check; blk.filters = ch.f; r = lzma_block_buffer_encode(&blk, &al.a, input.data(), input.size(), out.data(), &op, out.size()); break;
+	default: bound = lzma_stream_buffer_bound(input.size()); out.resize(op0 + bound, 0xEE); r = lzma_raw_buffer_encode(ch.f, &al.a, input.data(), input.size(), out.data(), &op, out.size()); break;
+	}
+	if (r == LZMA_OK && op >= op0) {
+		for (size_t q = 0; q < op0; ++q) if (out[q] != 0xEE) { v.fail("prefix-overwritten", P + "/prefix-overwritten", "single-call encoder wrote before *out_pos" + ctx); return; }
+		out.erase(out.begin(), out.begin() + (long)op0);
+		op -= op0;
 	}
 	if (bound == 0) { v.fail("bound-zero", P + "/bound-zero", "bound function returned 0" + ctx); return; }
 	if (r == LZMA_OPTIONS_ERROR) { v.count("runs.options_rejected"); return; }
